@@ -54,7 +54,8 @@ def run(ctx):
     import json
     import os
     from harness import core, querycorpus
-    editobs.run_histories(ctx, {"delete"}, "C04", ["MC_Edit_q.cfg"] if ctx.quick else ["MC_Edit_t.cfg"])
+    # MC_Edit_alias: a delete on the document one alias_nodes step left (aliases made at run time)
+    editobs.run_histories(ctx, {"delete"}, "C04", ["MC_Edit_q.cfg", "MC_Edit_alias.cfg"] if ctx.quick else ["MC_Edit_t.cfg", "MC_Edit_alias.cfg"])
     editobs.random_histories(ctx, "C04", 600 if ctx.quick else 6000, 8)
     # second layer: whatever a path matches on the real code (informational rules, repeats, nesting),
     # deleting must remove exactly those positions - DeleteNodes of the specification on the observed match set
